@@ -13,6 +13,7 @@ import (
 	"github.com/btcsuite/btcd/txscript"
 	"github.com/btcsuite/btcd/wire"
 	"github.com/elementsproject/peerswap/onchain"
+	"github.com/elementsproject/peerswap/swap"
 )
 
 func hexb(b []byte) string {
@@ -129,6 +130,26 @@ func init() {
 			csv := csvs[i%len(csvs)]
 			e := newScriptEnv(csv, fmt.Sprint(i))
 			emit(fmt.Sprintf("script.build %s %s %s %d", hexb(e.maker.PubKey().SerializeCompressed()), hexb(e.taker.PubKey().SerializeCompressed()), hexb(e.hash), csv), hexb(e.script))
+		}
+		// (i') the entry point the wallets and validators use (ParamsToTxScript over swap.OpeningParams), with keys
+		// and payment hashes drawn from small pools so that one process sees the same hash under different keys,
+		// the same keys under different hashes and repeats: the script must be a function of its four arguments
+		{
+			var pks, hashes []string
+			for i := 0; i < 4; i++ {
+				pks = append(pks, hexb(detKey(fmt.Sprint("pool", i)).PubKey().SerializeCompressed()))
+				h := sha256.Sum256([]byte(fmt.Sprint("poolhash", i)))
+				hashes = append(hashes, hexb(h[:]))
+			}
+			for i := 0; i < n/5+20; i++ {
+				mk, tk, h, csv := r.pickStr(pks), r.pickStr(pks), r.pickStr(hashes[:2]), csvs[r.intn(3)]
+				sc, err := onchain.ParamsToTxScript(&swap.OpeningParams{TakerPubkey: tk, MakerPubkey: mk, ClaimPaymentHash: h, Amount: 1000000, CSV: csv}, csv)
+				res := "err"
+				if err == nil {
+					res = hexb(sc)
+				}
+				emit(fmt.Sprintf("script.build %s %s %s %d", mk, tk, h, csv), res)
+			}
 		}
 		// (ii) evaluation
 		for i := 0; i < n; i++ {
